@@ -1,7 +1,8 @@
 import RnaVerif.Lemmas.Pure
+import RnaVerif.Lemmas.Removals
 /-! # C12 — secondary-structure objects are pure: queries and derivations never change them -/
 namespace RnaVerif.Props.C12
-open RnaVerif RnaVerif.SecStr
+open RnaVerif RnaVerif.SecStr RnaVerif.SecStr.Removals
 
 /-- one step keeps the entries and keeps every filled cache slot equal to a fresh computation,
 and answers what a fresh object answers -/
@@ -32,5 +33,223 @@ example :
        .text "1 A 5\n2 C 7\n3 G 0\n4 U 0\n5 A 1\n6 C 8\n7 G 2\n8 U 6",
        .text "([..)(])",
        .text "1 A 5\n2 C 0\n3 G 0\n4 U 0\n5 A 1\n6 C 8\n7 G 0\n8 U 6"] := by decide
+
+/-! ## the two removals return what the statement says
+
+First sentence of C12: "Removing pseudoknots returns exactly the pairs that the structure's own
+dot-bracket writes with round brackets, and removing isolated pairs returns exactly the pairs that
+belong to stems of length two or more, both with the sequence unchanged."  Proofs are in
+`Lemmas/Removals.lean`. -/
+
+/-! ### bridges to the generated tables -/
+
+/-- bridge: the replacement text of `DotBracket.without_pseudoknots` is a single dot -/
+theorem pkRepl_is_dot : Gen.pkRepl = ['.'] := by decide
+
+/-- bridge: 30 bracket types, and level 0 is the round bracket -/
+theorem level0_is_round :
+    Gen.encBrackets.length = 30 ∧ Gen.encBrackets.getD 0 ('?', '?') = ('(', ')') := by decide
+
+/-- bridge: the character class replaced by `DotBracket.without_pseudoknots` is exactly the set of
+opening and closing brackets of the levels 1..29 of the writer's bracket list; it contains neither
+round bracket nor the dot -/
+theorem pkStripped_is_levels_ge_1 :
+    (∀ c, c ∈ Gen.pkStripped ↔ ∃ l, 1 ≤ l ∧ l < 30 ∧
+      (c = charOfTok Gen.encBrackets (.op l) ∨ c = charOfTok Gen.encBrackets (.cl l))) ∧
+    '(' ∉ Gen.pkStripped ∧ ')' ∉ Gen.pkStripped ∧ '.' ∉ Gen.pkStripped := by
+  have h1 : ∀ c ∈ Gen.pkStripped, ∃ l ∈ List.range 30, 1 ≤ l ∧
+      (c = charOfTok Gen.encBrackets (.op l) ∨ c = charOfTok Gen.encBrackets (.cl l)) := by decide
+  have h2 : ∀ l, l < 30 → 1 ≤ l → charOfTok Gen.encBrackets (.op l) ∈ Gen.pkStripped ∧
+      charOfTok Gen.encBrackets (.cl l) ∈ Gen.pkStripped := by decide
+  refine ⟨fun c => ⟨fun hc => ?_, ?_⟩, by decide, by decide, by decide⟩
+  · obtain ⟨l, hl, h1l, h⟩ := h1 c hc
+    exact ⟨l, h1l, List.mem_range.mp hl, h⟩
+  · rintro ⟨l, h1l, hl, rfl | rfl⟩
+    · exact (h2 l hl h1l).1
+    · exact (h2 l hl h1l).2
+
+/-- the same on the level of what is done to one written character: brackets of level 0 and dots
+stay, brackets of the levels 1..29 become dots -/
+theorem strip_written_char (t : Tok) (h : t.levelLt 30) :
+    stripChar (charOfTok Gen.encBrackets t) = charOfTok Gen.encBrackets (stripTok t) := by
+  have h' : t.levelLt Gen.encBrackets.length := by rw [level0_is_round.1]; exact h
+  cases t with
+  | dot => exact stripChar_dot
+  | op l => exact stripChar_op l h'
+  | cl l => exact stripChar_cl l h'
+
+example : (Tok.op 3).levelLt 30 ∧ stripTok (.op 3) = .dot ∧ stripTok (.cl 0) = .cl 0 :=
+  ⟨by show 3 < 30; decide, rfl, rfl⟩
+
+/-! ### removing isolated pairs -/
+
+/-- **withoutIsolated_eq_long_stems**: for a valid BPSEQ, `without_isolated` returns a valid BPSEQ
+with the same sequence, length and indices, whose 5'→3' pairs (each listed once) are exactly the
+pairs of the structure that lie in a stem (`regions`, expanded by `stemPairs`) of length two or
+more. -/
+theorem withoutIsolated_eq_long_stems {es : List Entry} (hv : valid es = true) :
+    sequence (withoutIsolated es) = sequence es ∧
+    (withoutIsolated es).length = es.length ∧
+    (withoutIsolated es).map (·.idx) = es.map (·.idx) ∧
+    valid (withoutIsolated es) = true ∧
+    (pairs0 (withoutIsolated es)).Nodup ∧
+    ∀ p, p ∈ pairs0 (withoutIsolated es) ↔
+      p ∈ pairs0 es ∧ ∃ r ∈ regions es, 2 ≤ r.len ∧ p ∈ stemPairs r := by
+  have v := (SecStr.valid_iff es).mp hv
+  have v' := withoutIsolated_valid v
+  exact ⟨withoutIsolated_sequence es, withoutIsolated_length es, withoutIsolated_idx es,
+    (SecStr.valid_iff _).mpr v', pairs0_nodup v', pairs0_withoutIsolated v⟩
+
+/-- example: `ACGUACGUAC`, stem 1-10/2-9 of length two and the isolated pair 4-7 -/
+def exIso : List Entry :=
+  [⟨1, 'A', 10⟩, ⟨2, 'C', 9⟩, ⟨3, 'G', 0⟩, ⟨4, 'U', 7⟩, ⟨5, 'A', 0⟩, ⟨6, 'C', 0⟩, ⟨7, 'G', 4⟩,
+   ⟨8, 'U', 0⟩, ⟨9, 'A', 2⟩, ⟨10, 'C', 1⟩]
+
+/-- the same without the isolated pair -/
+def exNoIso : List Entry :=
+  [⟨1, 'A', 10⟩, ⟨2, 'C', 9⟩, ⟨3, 'G', 0⟩, ⟨4, 'U', 0⟩, ⟨5, 'A', 0⟩, ⟨6, 'C', 0⟩, ⟨7, 'G', 0⟩,
+   ⟨8, 'U', 0⟩, ⟨9, 'A', 2⟩, ⟨10, 'C', 1⟩]
+
+-- non-vacuity: valid inputs, one with an isolated pair (which is removed), one without (unchanged)
+example : valid exIso = true ∧ valid exNoIso = true ∧
+    regions exIso = [⟨1, 10, 2⟩, ⟨4, 7, 1⟩] ∧ regions exNoIso = [⟨1, 10, 2⟩] ∧
+    pairs0 exIso = [(0, 9), (1, 8), (3, 6)] ∧
+    withoutIsolated exIso = exNoIso ∧ withoutIsolated exNoIso = exNoIso ∧
+    pairs0 (withoutIsolated exIso) = [(0, 9), (1, 8)] := by decide
+
+/-! ### removing pseudoknots -/
+
+/-- **withoutPseudoknots_eq_level0**: let `db` be the dot-bracket the structure itself writes
+(`__make_dot_bracket` with any proper level vector, one level `< 30` per stem — in particular what
+`dot_bracket` / `fcfs` return).  Then `without_pseudoknots` succeeds and returns a valid BPSEQ of
+the same length over the same sequence whose 5'→3' pairs (each listed once) are exactly
+
+* the pairs of the stems whose level is 0, i.e.
+* the pairs of the structure that `db` writes with round brackets. -/
+theorem withoutPseudoknots_eq_level0 {es : List Entry} {lvs : List Nat} {db : List Char}
+    (hv : valid es = true) (hlen : lvs.length = (regions es).length) (hlv : ∀ l ∈ lvs, l < 30)
+    (hp : proper (adjOf conflictSpec (regions es)) lvs = true)
+    (hdb : mkDB es.length (regions es) lvs = .ok db) :
+    ∃ es', withoutPseudoknots es db = .ok es' ∧ sequence es' = sequence es ∧
+      es'.length = es.length ∧ valid es' = true ∧ (pairs0 es').Nodup ∧
+      (∀ p, p ∈ pairs0 es' ↔ ∃ q ∈ (regions es).zip lvs, q.2 = 0 ∧ p ∈ stemPairs q.1) ∧
+      (∀ p, p ∈ pairs0 es' ↔ p ∈ pairs0 es ∧ db[p.1]? = some '(' ∧ db[p.2]? = some ')') := by
+  have v := (SecStr.valid_iff es).mp hv
+  have hlv' : ∀ l ∈ lvs, l < Gen.encBrackets.length := by rw [level0_is_round.1]; exact hlv
+  have hp' := properP_of_proper hp
+  obtain ⟨es', h1, h2, h3, h4, h5, h6⟩ := withoutPseudoknots_spec v hlen hlv' hp' hdb
+  refine ⟨es', h1, h2, h3, (SecStr.valid_iff _).mpr h4, h5, fun p => ?_, fun p => ?_⟩
+  · rw [h6, mem_triples_level0]
+  · rw [h6, withoutPseudoknots_round v hlen hlv' hp' hdb]
+
+/-- the knotted running example `ACGUACGU`, pairs 1-5, 2-7, 6-8 -/
+def exKnot : List Entry :=
+  [⟨1, 'A', 5⟩, ⟨2, 'C', 7⟩, ⟨3, 'G', 0⟩, ⟨4, 'U', 0⟩, ⟨5, 'A', 1⟩, ⟨6, 'C', 8⟩, ⟨7, 'G', 2⟩,
+   ⟨8, 'U', 6⟩]
+
+-- non-vacuity: a knotted structure with levels [0, 1, 0]; the square-bracket pair 2-7 is removed
+example : valid exKnot = true ∧ [0, 1, 0].length = (regions exKnot).length ∧
+    (∀ l ∈ [0, 1, 0], l < 30) ∧ proper (adjOf conflictSpec (regions exKnot)) [0, 1, 0] = true ∧
+    (mkDB exKnot.length (regions exKnot) [0, 1, 0]).toOption =
+      some ['(', '[', '.', '.', ')', '(', ']', ')'] ∧
+    stripPk ['(', '[', '.', '.', ')', '(', ']', ')'] = ['(', '.', '.', '.', ')', '(', '.', ')'] ∧
+    (withoutPseudoknots exKnot ['(', '[', '.', '.', ')', '(', ']', ')']).toOption.map pairs0 =
+      some [(0, 4), (5, 7)] := by decide
+
+/-! ### the sequence is unchanged; the object model answers with exactly these entries -/
+
+/-- both removals keep the sequence — for every input, valid or not, and whatever dot-bracket the
+pseudoknot removal is given -/
+theorem removal_sequence_unchanged (es : List Entry) :
+    sequence (withoutIsolated es) = sequence es ∧
+    ∀ db es', withoutPseudoknots es db = .ok es' → sequence es' = sequence es :=
+  ⟨withoutIsolated_sequence es, fun _ _ h => withoutPseudoknots_sequence h⟩
+
+/-- the object model's `without_isolated` answer carries exactly the entries `withoutIsolated es`
+(whenever the cached `dot_bracket` it goes through does not raise) -/
+theorem answer_withoutIsolated (opt : List Entry → Except Err (List Char)) (es : List Entry)
+    {db : List Char} (h : opt es = .ok db) :
+    answerFresh opt es .withoutIsolated = .text (showEntriesText (withoutIsolated es)) := by
+  simp only [answerFresh, h]
+  cases es with
+  | nil => rfl
+  | cons e es => rfl
+
+/-- the object model's `without_pseudoknots` answer carries exactly the entries
+`withoutPseudoknots es db` for the object's own dot-bracket `db` -/
+theorem answer_withoutPseudoknots (opt : List Entry → Except Err (List Char)) (es : List Entry)
+    {db : List Char} {es' : List Entry} (h : opt es = .ok db)
+    (h' : withoutPseudoknots es db = .ok es') :
+    answerFresh opt es .withoutPseudoknots = .text (showEntriesText es') := by
+  simp only [answerFresh, h]
+  show ansOf showEntriesText (withoutPseudoknots es db) = _
+  rw [h']; rfl
+
+/-- **both removals of the object model, as stated**: if the object's `dot_bracket` is what
+`__make_dot_bracket` writes for a proper level vector, then in any history the two removal calls
+answer with the BPSEQ texts of two structures over the unchanged sequence whose pairs are exactly
+the pairs in stems of length ≥ 2, resp. the pairs written with round brackets. -/
+theorem removals_answers {opt : List Entry → Except Err (List Char)} {es : List Entry}
+    {lvs : List Nat} {db : List Char}
+    (hv : valid es = true) (hlen : lvs.length = (regions es).length) (hlv : ∀ l ∈ lvs, l < 30)
+    (hp : proper (adjOf conflictSpec (regions es)) lvs = true)
+    (hdb : mkDB es.length (regions es) lvs = .ok db) (hopt : opt es = .ok db) :
+    ∃ eI eP, answerFresh opt es .withoutIsolated = .text (showEntriesText eI) ∧
+      answerFresh opt es .withoutPseudoknots = .text (showEntriesText eP) ∧
+      sequence eI = sequence es ∧ sequence eP = sequence es ∧
+      valid eI = true ∧ valid eP = true ∧
+      (∀ p, p ∈ pairs0 eI ↔ p ∈ pairs0 es ∧ ∃ r ∈ regions es, 2 ≤ r.len ∧ p ∈ stemPairs r) ∧
+      (∀ p, p ∈ pairs0 eP ↔ p ∈ pairs0 es ∧ db[p.1]? = some '(' ∧ db[p.2]? = some ')') := by
+  obtain ⟨i1, _, _, i4, _, i6⟩ := withoutIsolated_eq_long_stems hv
+  obtain ⟨eP, p1, p2, _, p4, _, _, p7⟩ := withoutPseudoknots_eq_level0 hv hlen hlv hp hdb
+  exact ⟨_, eP, answer_withoutIsolated opt es hopt, answer_withoutPseudoknots opt es hopt p1,
+    i1, p2, i4, p4, i6, p7⟩
+
+-- non-vacuity: the knotted example with `opt := fcfs` (levels [0, 1, 0])
+example : valid exKnot = true ∧ [0, 1, 0].length = (regions exKnot).length ∧
+    (∀ l ∈ [0, 1, 0], l < 30) ∧ proper (adjOf conflictSpec (regions exKnot)) [0, 1, 0] = true ∧
+    (mkDB exKnot.length (regions exKnot) [0, 1, 0]).toOption =
+      some ['(', '[', '.', '.', ')', '(', ']', ')'] ∧
+    (fcfs exKnot).toOption = some ['(', '[', '.', '.', ')', '(', ']', ')'] ∧
+    answerFresh (fun es => fcfs es) exKnot .withoutPseudoknots =
+      .text "1 A 5\n2 C 0\n3 G 0\n4 U 0\n5 A 1\n6 C 8\n7 G 0\n8 U 6" ∧
+    answerFresh (fun es => fcfs es) exIso .withoutIsolated =
+      .text "1 A 10\n2 C 9\n3 G 0\n4 U 0\n5 A 0\n6 C 0\n7 G 0\n8 U 0\n9 A 2\n10 C 1" := by decide
+
+/-! ### "exactly": sequence and pairs describe the returned structure completely -/
+
+/-- two valid BPSEQs of the same length with the same sequence and the same set of 5'→3' pairs are
+the same list of entries; hence the two theorems above pin the returned objects down completely -/
+theorem entries_determined {a b : List Entry} (ha : valid a = true) (hb : valid b = true)
+    (hl : a.length = b.length) (hs : sequence a = sequence b)
+    (hp : ∀ p, p ∈ pairs0 a ↔ p ∈ pairs0 b) : a = b :=
+  valid_ext ((SecStr.valid_iff a).mp ha) ((SecStr.valid_iff b).mp hb) hl hs hp
+
+example : valid (withoutIsolated exIso) = true ∧ valid exNoIso = true ∧
+    (withoutIsolated exIso).length = exNoIso.length ∧
+    sequence (withoutIsolated exIso) = sequence exNoIso ∧
+    pairs0 (withoutIsolated exIso) = pairs0 exNoIso := by decide
+
+/-- consequence: a structure whose own dot-bracket uses round brackets only (all levels 0) is
+returned unchanged by `without_pseudoknots` -/
+theorem withoutPseudoknots_knot_free {es : List Entry} {lvs : List Nat} {db : List Char}
+    (hv : valid es = true) (hlen : lvs.length = (regions es).length) (hz : ∀ l ∈ lvs, l = 0)
+    (hp : proper (adjOf conflictSpec (regions es)) lvs = true)
+    (hdb : mkDB es.length (regions es) lvs = .ok db) :
+    withoutPseudoknots es db = .ok es :=
+  withoutPseudoknots_all_zero ((SecStr.valid_iff es).mp hv) hlen hz (properP_of_proper hp) hdb
+
+example : valid exIso = true ∧ [0, 0].length = (regions exIso).length ∧ (∀ l ∈ [0, 0], l = 0) ∧
+    proper (adjOf conflictSpec (regions exIso)) [0, 0] = true ∧
+    (mkDB exIso.length (regions exIso) [0, 0]).toOption =
+      some ['(', '(', '.', '(', '.', '.', ')', '.', ')', ')'] := by decide
+
+/-- consequence: a structure all of whose stems have length ≥ 2 is returned unchanged by
+`without_isolated` -/
+theorem withoutIsolated_no_isolated {es : List Entry} (h : ∀ r ∈ regions es, 2 ≤ r.len) :
+    withoutIsolated es = es :=
+  Removals.withoutIsolated_no_isolated (fun r hr hl => by have := h r hr; omega)
+
+example : ∀ r ∈ regions exNoIso, 2 ≤ r.len := by decide
 
 end RnaVerif.Props.C12
